@@ -104,3 +104,57 @@ def where_jobs(tier):
                         continue
                     jobs.append((letters, tuple(sizes), perm, m))
     return jobs
+
+
+def case_split_exact(prog: Program, letters, sizes, perm, split_letter):
+    """split on the exact array domain (memory layout modelled): every part holds the entries of its item and shares no memory with
+    the source - whatever the layout of the source's values and whichever dimension is split"""
+    it = SymInterp(prog)
+    case = WCase({"op": "split", "dims": list(letters), "lengths": list(sizes), "memory_order_of_axes": list(perm), "split": split_letter})
+    qual = "FlodymArray.split"
+    D = prog.cls("Dimension")
+    items = [[f"{l}{j}" for j in range(n)] for l, n in zip(letters, sizes)]
+    dims = [it.construct(D, [], dict(name=l * 2, letter=l, items=list(its))) for l, its in zip(letters, items)]
+    ds = it.construct(prog.cls("DimensionSet"), [], dict(dim_list=dims))
+    shape = tuple(sizes)
+    values = laid_out(shape, perm, lambda idx: Rat.sym("v_" + "_".join(map(str, idx))))
+    x = it.construct(prog.cls("FlodymArray"), [], dict(dims=ds, values=values, name="x"))
+    xv = x.f["values"]
+    kind, r = run_guarded(lambda: it.call_method(x, "split", split_letter))
+    if kind != "ok" or not isinstance(r, dict):
+        case.v("split", False, f"split ended with {kind}: {getattr(r, 'msg', r)!s:.120}", qual)
+        return case
+    k = letters.index(split_letter)
+    ok_content, shared = True, []
+    if list(r.keys()) != items[k]:
+        ok_content = False
+    for j, item in enumerate(items[k]):
+        part = r.get(item)
+        pv = part.f.get("values") if hasattr(part, "f") else None
+        if not isinstance(pv, SArr):
+            ok_content = False
+            continue
+        rest = tuple(s for i, s in enumerate(shape) if i != k)
+        if tuple(pv.shape) != rest:
+            ok_content = False
+            continue
+        for ridx in itertools.product(*[range(s) for s in rest]):
+            full = ridx[:k] + (j,) + ridx[k:]
+            if not (pv.get(ridx) == xv.get(full)):
+                ok_content = False
+        if pv.base is xv.base:
+            shared.append(item)
+    case.v("split", ok_content, "the parts do not hold the entries of their items", qual)
+    case.v("fresh", not shared, f"the part(s) for {shared[:3]} share memory with the source array: writing into one changes the other", qual)
+    return case
+
+
+def split_jobs(tier):
+    jobs = []
+    for n in (1, 2, 3):
+        letters = "abc"[:n]
+        for sizes in ([2, 3, 2][:n], [1, 2, 2][:n]):
+            for perm in itertools.permutations(range(n)):
+                for l in letters:
+                    jobs.append((letters, tuple(sizes), perm, l))
+    return jobs
